@@ -239,8 +239,7 @@ def _lower(s):
     return ops.str_lower(s)
 
 
-CLS = Obj("CompClass")
-REG.stub(("getattr", "CompClass", "__name__"), lambda run, obj, node: Val(TStr, ops.uf("class_name", CLS.sort(), S)(obj.t)))
+from contracts.common import CLS  # noqa: E402
 
 
 def _lower_axioms(tag):
